@@ -458,6 +458,45 @@ def run_cases(ctx, model, cases):
     return impl
 
 
+def jsx_cases(ctx, g):
+    """Capitalised (component) names under the jsx option: `$` runs in the name are numbered like anywhere else."""
+    for syn in ('jsx', 'svelte'):
+        for n in (1, 2, 3):
+            for name, form, val in (('Item', '$', lambda i, n: str(i)), ('Foo.Bar', '$$@-', lambda i, n: '%02d' % (n - i + 1)),
+                                    ('Card', '$@3', lambda i, n: str(2 + i)), ('item', '$', lambda i, n: str(i))):
+                abbr = '%s%s[k=v$]*%d' % (name, form, n)
+                exp = [(name + val(i, n), {'k': 'v%d' % i}, '', []) for i in range(1, n + 1)]
+                g.cases.append(Case(abbr, {'syntax': syn, 'options': {'output.format': False}}, exp, 'jsx-component'))
+                ctx.cover('gen:jsx-component-name')
+
+
+POISON_ABBRS = ['a{${1:foo', 'p[title=${1 x}]', 'p{${1', 'a[href=${1', 'ul>li[title="x', '(a>b', 'a{t', '{${x']
+
+
+def after_rejected(ctx, cases):
+    """Copies and numbering do not depend on earlier calls, in particular not on earlier REJECTED abbreviations
+    (what an editor sends mid-typing): every few cases a malformed abbreviation is expanded first."""
+    rng = ctx.rng
+    sel = [c for c in cases if c.exp is not None]
+    step = max(1, len(sel) // (400 if ctx.tier == 'quick' else 4000))
+    n = 0
+    for c in sel[::step]:
+        poison = rng.choice(POISON_ABBRS)
+        impl_expand(poison, c.cfg)
+        r = impl_expand(c.abbr, c.cfg)
+        n += 1
+        ctx.count_eval()
+        ctx.cover('after-rejected-abbreviation')
+        bad = check_output(c.exp, r)
+        if bad:
+            ctx.property_failure('after-rejected:' + key_of(c.abbr, c.cfg),
+                                 'expand(%r, %s) right after the rejected abbreviation %r: %s' % (c.abbr, canon_cfg(c.cfg), poison, bad),
+                                 {'kind': 'expand-after-rejected', 'abbr': c.abbr, 'config': c.cfg, 'poison': poison,
+                                  'expected': to_json(c.exp), 'output': r[1][:2000] if r[0] == 'ok' else repr(r), 'why': bad})
+            break
+    ctx.cov['after_rejected_sequences'] = n
+
+
 def run(ctx):
     ok = ctx.build(['props/C02.vo', 'run/MarkupRun.vo'])
     if ok:
@@ -484,7 +523,9 @@ def run(ctx):
         for cfg in ({'options': {'output.format': False}}, {'options': {'output.format': False}, 'maxRepeat': 2 + k % 3}):
             g.cases.append(Case(abbr, cfg, None, 'tie-only'))
             ctx.cover('gen:tie-only')
+    jsx_cases(ctx, g)
     impl = run_cases(ctx, model, g.cases)
+    after_rejected(ctx, g.cases)
     run_tokens(ctx, model)
     run_spec(ctx, g.cases)
     picks = [k for k, c in enumerate(g.cases) if c.label == 'random'][:3] + \
@@ -507,6 +548,8 @@ def replay(ctx, obj):
     if 'abbr' not in rp or rp.get('expected') is None:
         print('replay names a broken obligation, no input: %s' % str(rp)[:300])
         return 1
+    if rp.get('kind') == 'expand-after-rejected':
+        impl_expand(rp['poison'], rp['config'])
     r = impl_expand(rp['abbr'], rp['config'])
     bad = check_output(from_json(rp['expected']), r)
     print('expand(%r, %r) -> %r\n%s' % (rp['abbr'], rp['config'], r, ('property fails: ' + bad) if bad else 'property holds'))
